@@ -1,7 +1,8 @@
 (* C17 - the Xen history checker holds on the model for ALL histories (checker-on-model theorem). *)
 From VM Require Import Prelude.MachInt Prelude.Outcome Prelude.Tok Impl.MmapBuild Impl.Xen Spec.C17 Suite.C17 Proofs.C17.
 
-Ltac pick := first [ split; reflexivity | left; split; reflexivity | right; pick ].
+Ltac fin := split; [reflexivity | first [reflexivity | split; [reflexivity|assumption]]].
+Ltac pick := first [ fin | left; fin | right; pick ].
 
 Lemma xop_of_cases x op : xop_of x = Some op ->
   (x_code x = 0 /\ op = XWrite (x_off x) (x_a x)) \/
@@ -14,69 +15,105 @@ Lemma xop_of_cases x op : xop_of x = Some op ->
   (x_code x = 7 /\ op = XArrCopyFrom (x_off x) (x_a x) (x_b x) (x_c x)) \/
   (x_code x = 8 /\ op = XArrCopyTo (x_off x) (x_a x) (x_b x) (x_c x)) \/
   (x_code x = 9 /\ op = XAtomicLoad (x_off x) (x_a x)) \/
-  (x_code x = 10 /\ op = XCopyToVS (x_off x) (x_a x)).
+  (x_code x = 10 /\ op = XCopyToVS (x_off x) (x_a x)) \/
+  (x_code x = 11 /\ op = XReadFrom (x_off x) (x_a x) (x_b x)) \/
+  (x_code x = 12 /\ op = XWriteTo (x_off x) (x_a x)) \/
+  (x_code x = 13 /\ op = XSliceCopyFrom (x_off x) (x_a x) (x_b x) (x_c x) /\ x_b x <> 0) \/
+  (x_code x = 14 /\ op = XSliceCopyTo (x_off x) (x_a x) (x_b x) (x_c x) /\ x_b x <> 0).
 Proof.
   unfold xop_of. intros H. destruct (x_code x) as [|p].
   - inversion H; subst; clear H. pick.
-  - repeat (destruct p as [p|p|]; try discriminate H); inversion H; subst; clear H; pick.
+  - repeat (destruct p as [p|p|]; try discriminate H);
+      try (destruct (N.eqb_spec (x_a x) 0) as [Z|Z]; [discriminate H|]);
+      try (destruct (N.eqb_spec (x_b x) 0) as [Z|Z]; [discriminate H|]);
+      inversion H; subst; clear H; pick.
+Qed.
+
+Ltac xcases X := destruct (xop_of_cases _ _ X) as [[K ->] | [[K ->] | [[K ->] | [[K ->] | [[K ->] | [[K ->] | [[K ->] | [[K ->] | [[K ->] | [[K ->] | [[K ->] | [[K ->] | [[K ->] | [[K [-> NZ]] | [K [-> NZ]]]]]]]]]]]]]]]].
+
+(* the two shapes of the slice copy plan *)
+Lemma slice_copy_plan m size off len t k (wr : bool) : t <> 0 -> size <= ISZ_MAX ->
+  (match end_offset size off len with
+   | None => Val PErr
+   | Some _ =>
+       if t =? 1 then Val (PGuard off len wr off (N.min k len))
+       else
+         let* cnt := pdiv 655 len t in
+         match isz_mul cnt t with
+         | None => Panic 658
+         | Some nb => let* gl := guard_len m (AArray t cnt) in Val (PGuard off gl wr off (N.min k cnt * t))
+         end
+   end) =
+  match end_offset size off len with
+  | None => Val PErr
+  | Some _ => if t =? 1 then Val (PGuard off len wr off (N.min k len))
+              else Val (PGuard off (len / t * t) wr off (N.min k (len / t) * t))
+  end.
+Proof.
+  intros Z S. destruct (end_offset size off len) eqn:E; [|reflexivity]. apply end_offset_Some in E.
+  destruct (t =? 1); [reflexivity|].
+  unfold pdiv. destruct (N.eqb_spec t 0); [contradiction|]. cbn [bind].
+  pose proof (N.mul_div_le len t Z) as D.
+  assert (I : isz_mul (len / t) t = Some (len / t * t)).
+  { unfold isz_mul. remember (len / t) as q.
+    destruct (N.leb_spec q ISZ_MAX) as [L1|L1]; [|nia]. destruct (N.leb_spec (q * t) ISZ_MAX) as [L2|L2]; [reflexivity|nia]. }
+  rewrite I. cbn [guard_len]. rewrite pmul_Val; [reflexivity|].
+  unfold ISZ_MAX in S. rewrite W64_val. remember (len / t) as q. nia.
 Qed.
 
 (* the checker's notion of the touched bytes agrees with the model's plan *)
-Lemma plan_touched m size x op goff glen wr toff tlen :
+Lemma plan_touched m size x op goff glen wr toff tlen : size <= ISZ_MAX ->
   xop_of x = Some op -> op_plan m size op = Val (PGuard goff glen wr toff tlen) ->
   touched size x = Some (toff, tlen).
 Proof.
-  intros X. unfold touched.
-  destruct (xop_of_cases x op X) as [[K ->]|[[K ->]|[[K ->]|[[K ->]|[[K ->]|[[K ->]|[[K ->]|[[K ->]|[[K ->]|[[K ->]|[K ->]]]]]]]]]]];
-    rewrite K; cbn [op_plan].
+  intros SZ X. unfold touched.
+  xcases X; rewrite K; cbn [op_plan].
   1,2: destruct (x_a x =? 0); cbn [orb]; [discriminate|]; destruct (size <=? x_off x); [discriminate|];
        intros HH; inv_val; rewrite N.min_comm; reflexivity.
-  - destruct (end_offset size (x_off x) (x_a x)) eqn:E; [|discriminate]. apply end_offset_Some in E.
-    intros HH; inv_val. destruct (N.leb_spec (x_off x + x_a x) size) as [LL|LL]; [reflexivity|lia].
-  - destruct (end_offset size (x_off x) (x_a x)) eqn:E; [|discriminate]. apply end_offset_Some in E.
-    intros HH; inv_val. destruct (N.leb_spec (x_off x + x_a x) size) as [LL|LL]; [reflexivity|lia].
-  - destruct (end_offset size (x_off x) (x_a x)) eqn:E; [|discriminate]. apply end_offset_Some in E.
-    intros HH; inv_val. destruct (N.leb_spec (x_off x + x_a x) size) as [LL|LL]; [reflexivity|lia].
-  - destruct (isz_mul (x_b x) (x_a x)) as [nb|] eqn:I; [|discriminate]. apply isz_mul_Some in I. destruct I as [-> I].
-    destruct (end_offset size (x_off x) (x_b x * x_a x)) eqn:E; [|discriminate]. apply end_offset_Some in E.
-    unfold passert. destruct (N.ltb_spec (x_c x) (x_b x)) as [L|L]; cbn [bind]; [|discriminate].
-    rewrite pmul_Val by nia. cbn [bind]. intros HH; inv_val.
-    destruct (N.leb_spec (x_off x + x_b x * x_a x) size) as [LL|LL]; [|lia]. cbn [andb].
-    rewrite (N.mul_comm (x_c x) (x_a x)). reflexivity.
-  - destruct (isz_mul (x_b x) (x_a x)) as [nb|] eqn:I; [|discriminate]. apply isz_mul_Some in I. destruct I as [-> I].
-    destruct (end_offset size (x_off x) (x_b x * x_a x)) eqn:E; [|discriminate]. apply end_offset_Some in E.
-    unfold passert. destruct (N.ltb_spec (x_c x) (x_b x)) as [L|L]; cbn [bind]; [|discriminate].
-    rewrite pmul_Val by nia. cbn [bind]. intros HH; inv_val.
-    destruct (N.leb_spec (x_off x + x_b x * x_a x) size) as [LL|LL]; [|lia]. cbn [andb].
-    rewrite (N.mul_comm (x_c x) (x_a x)). reflexivity.
-  - destruct (isz_mul (x_b x) (x_a x)) as [nb|] eqn:I; [|discriminate]. apply isz_mul_Some in I. destruct I as [-> I].
-    destruct (end_offset size (x_off x) (x_b x * x_a x)) eqn:E; [|discriminate]. apply end_offset_Some in E.
-    destruct (N.leb_spec (x_off x + x_b x * x_a x) size) as [LL|LL]; [|lia].
-    destruct (N.eqb_spec (x_a x) 1) as [T|T].
-    + rewrite pmul_Val by exact I. cbn [bind]. intros HH; inv_val. rewrite T, !N.mul_1_r. reflexivity.
-    + cbn [guard_len]. rewrite pmul_Val by exact I. cbn [bind]. intros HH; inv_val. reflexivity.
-  - destruct (isz_mul (x_b x) (x_a x)) as [nb|] eqn:I; [|discriminate]. apply isz_mul_Some in I. destruct I as [-> I].
-    destruct (end_offset size (x_off x) (x_b x * x_a x)) eqn:E; [|discriminate]. apply end_offset_Some in E.
-    destruct (N.leb_spec (x_off x + x_b x * x_a x) size) as [LL|LL]; [|lia].
-    destruct (N.eqb_spec (x_a x) 1) as [T|T].
-    + rewrite pmul_Val by exact I. cbn [bind]. intros HH; inv_val. rewrite T, !N.mul_1_r. reflexivity.
-    + cbn [guard_len]. rewrite pmul_Val by exact I. cbn [bind]. intros HH; inv_val. reflexivity.
+  1,2,3: destruct (end_offset size (x_off x) (x_a x)) eqn:E; [|discriminate]; apply end_offset_Some in E;
+       intros HH; inv_val; destruct (N.leb_spec (x_off x + x_a x) size) as [LL|LL]; [reflexivity|lia].
+  1,2: destruct (isz_mul (x_b x) (x_a x)) as [nb|] eqn:I; [|discriminate]; apply isz_mul_Some in I; destruct I as [-> I];
+       destruct (end_offset size (x_off x) (x_b x * x_a x)) eqn:E; [|discriminate]; apply end_offset_Some in E;
+       unfold passert; destruct (N.ltb_spec (x_c x) (x_b x)) as [L|L]; cbn [bind]; [|discriminate];
+       rewrite pmul_Val by nia; cbn [bind]; intros HH; inv_val;
+       destruct (N.leb_spec (x_off x + x_b x * x_a x) size) as [LL|LL]; [|lia]; cbn [andb];
+       rewrite (N.mul_comm (x_c x) (x_a x)); reflexivity.
+  1,2: destruct (isz_mul (x_b x) (x_a x)) as [nb|] eqn:I; [|discriminate]; apply isz_mul_Some in I; destruct I as [-> I];
+       destruct (end_offset size (x_off x) (x_b x * x_a x)) eqn:E; [|discriminate]; apply end_offset_Some in E;
+       destruct (N.leb_spec (x_off x + x_b x * x_a x) size) as [LL|LL]; [|lia];
+       destruct (N.eqb_spec (x_a x) 1) as [T|T];
+       [rewrite pmul_Val by exact I; cbn [bind]; intros HH; inv_val; rewrite T, !N.mul_1_r; reflexivity
+       |cbn [guard_len]; rewrite pmul_Val by exact I; cbn [bind]; intros HH; inv_val; reflexivity].
   - destruct (end_offset size (x_off x) (x_a x)); [|discriminate]. destruct (x_off x mod x_a x =? 0); discriminate.
   - destruct (end_offset size (x_off x) (x_a x)); discriminate.
+  - destruct (size <? x_off x); [discriminate|]. intros HH; inv_val. reflexivity.
+  - destruct (size <? x_off x); [discriminate|]. intros HH; inv_val. reflexivity.
+  - rewrite (slice_copy_plan m size (x_off x) (x_a x) (x_b x) (x_c x) true NZ SZ).
+    destruct (end_offset size (x_off x) (x_a x)) eqn:E; [|discriminate]. apply end_offset_Some in E.
+    destruct (N.leb_spec (x_off x + x_a x) size) as [LL|LL]; [|lia].
+    destruct (x_b x =? 1); intros HH; inv_val; reflexivity.
+  - rewrite (slice_copy_plan m size (x_off x) (x_a x) (x_b x) (x_c x) false NZ SZ).
+    destruct (end_offset size (x_off x) (x_a x)) eqn:E; [|discriminate]. apply end_offset_Some in E.
+    destruct (N.leb_spec (x_off x + x_a x) size) as [LL|LL]; [|lia].
+    destruct (x_b x =? 1); intros HH; inv_val; reflexivity.
 Qed.
 
 (* a plan that panics touches nothing the checker knows of *)
-Lemma plan_not_val_touched m size x op :
+Lemma plan_not_val_touched m size x op : size <= ISZ_MAX ->
   xop_of x = Some op -> (forall p, op_plan m size op <> Val p) -> touched size x = None.
 Proof.
-  intros X NV. unfold touched.
-  destruct (xop_of_cases x op X) as [[K ->]|[[K ->]|[[K ->]|[[K ->]|[[K ->]|[[K ->]|[[K ->]|[[K ->]|[[K ->]|[[K ->]|[K ->]]]]]]]]]]];
-    rewrite K; cbn [op_plan] in NV.
+  intros SZ X NV. unfold touched.
+  xcases X; rewrite K; cbn [op_plan] in NV.
   1,2: exfalso; destruct (x_a x =? 0); [eapply NV; reflexivity|]; destruct (size <=? x_off x); eapply NV; reflexivity.
   1,2,3: exfalso; destruct (end_offset size (x_off x) (x_a x)); eapply NV; reflexivity.
   5: exfalso; destruct (end_offset size (x_off x) (x_a x)); [|eapply NV; reflexivity];
      destruct (x_off x mod x_a x =? 0); eapply NV; reflexivity.
   5: exfalso; destruct (end_offset size (x_off x) (x_a x)); eapply NV; reflexivity.
+  5,6: exfalso; destruct (size <? x_off x); eapply NV; reflexivity.
+  5: exfalso; rewrite (slice_copy_plan m size (x_off x) (x_a x) (x_b x) (x_c x) true NZ SZ) in NV;
+     destruct (end_offset size (x_off x) (x_a x)); [|eapply NV; reflexivity]; destruct (x_b x =? 1); eapply NV; reflexivity.
+  5: exfalso; rewrite (slice_copy_plan m size (x_off x) (x_a x) (x_b x) (x_c x) false NZ SZ) in NV;
+     destruct (end_offset size (x_off x) (x_a x)); [|eapply NV; reflexivity]; destruct (x_b x =? 1); eapply NV; reflexivity.
   3,4: exfalso; destruct (isz_mul (x_b x) (x_a x)) as [nb|] eqn:I; [|eapply NV; reflexivity];
        apply isz_mul_Some in I; destruct I as [-> I];
        destruct (end_offset size (x_off x) (x_b x * x_a x)) eqn:E; [|eapply NV; reflexivity];
@@ -88,6 +125,36 @@ Proof.
        destruct (end_offset size (x_off x) (x_b x * x_a x)) eqn:E; [|eapply NV; reflexivity];
        unfold passert in NV; destruct (N.ltb_spec (x_c x) (x_b x)) as [L2|L2]; [|lia]; cbn [bind] in NV;
        rewrite pmul_Val in NV by nia; cbn [bind] in NV; eapply NV; reflexivity.
+Qed.
+
+(* which operations plan what: "nothing to do" only for an empty buffer, "unguarded" only for the two
+   entry points of F6b *)
+Lemma plan_shape m size x op p : size <= ISZ_MAX -> xop_of x = Some op -> op_plan m size op = Val p ->
+  match p with
+  | PRaw _ _ => x_code x = 9 \/ x_code x = 10
+  | PNone => touched size x = None
+  | _ => True end.
+Proof.
+  intros SZ X. unfold touched.
+  xcases X; rewrite K; cbn [op_plan].
+  1,2: destruct (x_a x =? 0); [intros HH; inv_val; reflexivity|]; destruct (size <=? x_off x); intros HH; inv_val; exact I.
+  1,2,3: destruct (end_offset size (x_off x) (x_a x)); intros HH; inv_val; exact I.
+  5: destruct (end_offset size (x_off x) (x_a x)); [|intros HH; inv_val; exact I];
+     destruct (x_off x mod x_a x =? 0); intros HH; inv_val; [left; reflexivity|exact I].
+  5: destruct (end_offset size (x_off x) (x_a x)); intros HH; inv_val; [right; reflexivity|exact I].
+  5,6: destruct (size <? x_off x); intros HH; inv_val; exact I.
+  5: rewrite (slice_copy_plan m size (x_off x) (x_a x) (x_b x) (x_c x) true NZ SZ);
+     destruct (end_offset size (x_off x) (x_a x)); [|intros HH; inv_val; exact I]; destruct (x_b x =? 1); intros HH; inv_val; exact I.
+  5: rewrite (slice_copy_plan m size (x_off x) (x_a x) (x_b x) (x_c x) false NZ SZ);
+     destruct (end_offset size (x_off x) (x_a x)); [|intros HH; inv_val; exact I]; destruct (x_b x =? 1); intros HH; inv_val; exact I.
+  1,2: destruct (isz_mul (x_b x) (x_a x)); [|intros HH; inv_val; exact I];
+       destruct (end_offset size (x_off x) n); [|intros HH; inv_val; exact I];
+       destruct (passert 1136 (x_c x <? x_b x)); cbn [bind]; try discriminate;
+       destruct (pmul m 1141 (x_a x) (x_c x)); cbn [bind]; try discriminate; intros HH; inv_val; exact I.
+  all: destruct (isz_mul (x_b x) (x_a x)); [|intros HH; inv_val; exact I];
+       destruct (end_offset size (x_off x) n); [|intros HH; inv_val; exact I];
+       destruct (x_a x =? 1); [destruct (pmul m 1118 (x_b x) (x_a x))|destruct (guard_len m (AArray (x_a x) (x_b x)))];
+       cbn [bind]; try discriminate; intros HH; inv_val; exact I.
 Qed.
 
 (* ------------------------------------------------------------------ one operation on one region *)
@@ -159,6 +226,9 @@ Section OneRegion.
   Proof. destruct b; split; intros; auto; discriminate. Qed.
 
   (* on-demand region: every guarded operation satisfies the checker *)
+  Lemma size_isz : xr_size g <= ISZ_MAX.
+  Proof. unfold ISZ_MAX. lia. Qed.
+
   Lemma op_ok_demand x op st : on_demand g = true -> cx_rkind c = 3 ->
     xop_of x = Some op -> x_code x <> 9 -> x_code x <> 10 ->
     snd (run_op m o g op) <> RFault /\
@@ -166,49 +236,20 @@ Section OneRegion.
     op_ok c x {| p_r := opres_code (snd (run_op m o g op)); p_data := 1; p_live := 0;
                  p_evs := dev_evs (fst (run_op m o g op)) |} = true.
   Proof.
-    intros D RK X N9 N10.
+    intros D RK X N9 N10. pose proof size_isz as SZ.
     split; [|split].
     - unfold run_op. destruct (op_plan m (xr_size g) op) as [[| |goff glen wr toff tlen|toff tlen]| |] eqn:P; cbn [snd]; try discriminate.
       + destruct (guarded m o g goff glen wr) as [l [w| |]]; discriminate.
-      + exfalso. destruct (xop_of_cases x op X) as [[K ->]|[[K ->]|[[K ->]|[[K ->]|[[K ->]|[[K ->]|[[K ->]|[[K ->]|[[K ->]|[[K ->]|[K ->]]]]]]]]]]];
-          try contradiction; cbn [op_plan] in P.
-        * destruct (x_a x =? 0); [discriminate|]. destruct (xr_size g <=? x_off x); discriminate.
-        * destruct (x_a x =? 0); [discriminate|]. destruct (xr_size g <=? x_off x); discriminate.
-        * destruct (end_offset (xr_size g) (x_off x) (x_a x)); discriminate.
-        * destruct (end_offset (xr_size g) (x_off x) (x_a x)); discriminate.
-        * destruct (end_offset (xr_size g) (x_off x) (x_a x)); discriminate.
-        * destruct (isz_mul (x_b x) (x_a x)); [|discriminate]. destruct (end_offset (xr_size g) (x_off x) n); [|discriminate].
-          destruct (passert 1136 (x_c x <? x_b x)); cbn [bind] in P; try discriminate.
-          destruct (pmul m 1141 (x_a x) (x_c x)); cbn [bind] in P; discriminate.
-        * destruct (isz_mul (x_b x) (x_a x)); [|discriminate]. destruct (end_offset (xr_size g) (x_off x) n); [|discriminate].
-          destruct (passert 1136 (x_c x <? x_b x)); cbn [bind] in P; try discriminate.
-          destruct (pmul m 1141 (x_a x) (x_c x)); cbn [bind] in P; discriminate.
-        * destruct (isz_mul (x_b x) (x_a x)); [|discriminate]. destruct (end_offset (xr_size g) (x_off x) n); [|discriminate].
-          destruct (x_a x =? 1); [destruct (pmul m 1118 (x_b x) (x_a x))|destruct (guard_len m (AArray (x_a x) (x_b x)))]; cbn [bind] in P; discriminate.
-        * destruct (isz_mul (x_b x) (x_a x)); [|discriminate]. destruct (end_offset (xr_size g) (x_off x) n); [|discriminate].
-          destruct (x_a x =? 1); [destruct (pmul m 1118 (x_b x) (x_a x))|destruct (guard_len m (AArray (x_a x) (x_b x)))]; cbn [bind] in P; discriminate.
+      + exfalso. pose proof (plan_shape m (xr_size g) x op _ SZ X P) as S. cbn in S. tauto.
     - apply balanced_block_live. apply run_op_balanced. exact Hmm.
     - unfold op_ok. cbn [p_r p_data p_live p_evs]. rewrite RK, Cs.
       unfold run_op.
       destruct (op_plan m (xr_size g) op) as [[| |goff glen wr toff tlen|toff tlen]| |] eqn:P; cbn [fst snd opres_code].
       + (* Err *) destruct (touched (xr_size g) x) as [[f n]|]; [destruct (0 <? n)|]; reflexivity.
       + (* nothing to do: an empty buffer *)
-        assert (T : touched (xr_size g) x = None).
-        { unfold touched.
-          destruct (xop_of_cases x op X) as [[K ->]|[[K ->]|[[K ->]|[[K ->]|[[K ->]|[[K ->]|[[K ->]|[[K ->]|[[K ->]|[[K ->]|[K ->]]]]]]]]]]];
-            rewrite K; cbn [op_plan] in P.
-          1,2: destruct (x_a x =? 0); [reflexivity|]; destruct (xr_size g <=? x_off x); discriminate.
-          1,2,3: destruct (end_offset (xr_size g) (x_off x) (x_a x)); discriminate.
-          5: destruct (end_offset (xr_size g) (x_off x) (x_a x)); [|discriminate]; destruct (x_off x mod x_a x =? 0); discriminate.
-          5: destruct (end_offset (xr_size g) (x_off x) (x_a x)); discriminate.
-          1,2: destruct (isz_mul (x_b x) (x_a x)); [|discriminate]; destruct (end_offset (xr_size g) (x_off x) n); [|discriminate];
-               destruct (passert 1136 (x_c x <? x_b x)); cbn [bind] in P; try discriminate;
-               destruct (pmul m 1141 (x_a x) (x_c x)); cbn [bind] in P; discriminate.
-          all: destruct (isz_mul (x_b x) (x_a x)); [|discriminate]; destruct (end_offset (xr_size g) (x_off x) n); [|discriminate];
-               destruct (x_a x =? 1); [destruct (pmul m 1118 (x_b x) (x_a x))|destruct (guard_len m (AArray (x_a x) (x_b x)))]; cbn [bind] in P; discriminate. }
-        rewrite T. reflexivity.
+        pose proof (plan_shape m (xr_size g) x op _ SZ X P) as T. cbn in T. rewrite T. reflexivity.
       + (* a guard *)
-        pose proof (plan_touched m (xr_size g) x op _ _ _ _ _ X P) as T. rewrite T.
+        pose proof (plan_touched m (xr_size g) x op _ _ _ _ _ SZ X P) as T. rewrite T.
         destruct (plan_inside _ _ _ _ _ _ _ _ P) as [A1 [A2 A3]].
         destruct (guarded m o g goff glen wr) as [l r] eqn:G. cbn [fst snd].
         destruct r as [[w|]| |]; cbn [opres_code].
@@ -242,37 +283,21 @@ Section OneRegion.
           -- destruct (guarded_done goff glen wr D A3 (or_introl GL)) as [l' [w' E']]. congruence.
           -- assert (tlen = 0) by lia. subst tlen. reflexivity.
       + (* unguarded: excluded *)
-        exfalso. destruct (xop_of_cases x op X) as [[K ->]|[[K ->]|[[K ->]|[[K ->]|[[K ->]|[[K ->]|[[K ->]|[[K ->]|[[K ->]|[[K ->]|[K ->]]]]]]]]]]];
-          try contradiction; cbn [op_plan] in P.
-        * destruct (x_a x =? 0); [discriminate|]. destruct (xr_size g <=? x_off x); discriminate.
-        * destruct (x_a x =? 0); [discriminate|]. destruct (xr_size g <=? x_off x); discriminate.
-        * destruct (end_offset (xr_size g) (x_off x) (x_a x)); discriminate.
-        * destruct (end_offset (xr_size g) (x_off x) (x_a x)); discriminate.
-        * destruct (end_offset (xr_size g) (x_off x) (x_a x)); discriminate.
-        * destruct (isz_mul (x_b x) (x_a x)); [|discriminate]. destruct (end_offset (xr_size g) (x_off x) n); [|discriminate].
-          destruct (passert 1136 (x_c x <? x_b x)); cbn [bind] in P; try discriminate.
-          destruct (pmul m 1141 (x_a x) (x_c x)); cbn [bind] in P; discriminate.
-        * destruct (isz_mul (x_b x) (x_a x)); [|discriminate]. destruct (end_offset (xr_size g) (x_off x) n); [|discriminate].
-          destruct (passert 1136 (x_c x <? x_b x)); cbn [bind] in P; try discriminate.
-          destruct (pmul m 1141 (x_a x) (x_c x)); cbn [bind] in P; discriminate.
-        * destruct (isz_mul (x_b x) (x_a x)); [|discriminate]. destruct (end_offset (xr_size g) (x_off x) n); [|discriminate].
-          destruct (x_a x =? 1); [destruct (pmul m 1118 (x_b x) (x_a x))|destruct (guard_len m (AArray (x_a x) (x_b x)))]; cbn [bind] in P; discriminate.
-        * destruct (isz_mul (x_b x) (x_a x)); [|discriminate]. destruct (end_offset (xr_size g) (x_off x) n); [|discriminate].
-          destruct (x_a x =? 1); [destruct (pmul m 1118 (x_b x) (x_a x))|destruct (guard_len m (AArray (x_a x) (x_b x)))]; cbn [bind] in P; discriminate.
+        exfalso. pose proof (plan_shape m (xr_size g) x op _ SZ X P) as S. cbn in S. tauto.
       + (* the plan itself panicked *)
-        rewrite (plan_not_val_touched m (xr_size g) x op X); [reflexivity|]. intros p E. rewrite P in E. discriminate.
-      + rewrite (plan_not_val_touched m (xr_size g) x op X); [reflexivity|]. intros p E. rewrite P in E. discriminate.
+        rewrite (plan_not_val_touched m (xr_size g) x op SZ X); [reflexivity|]. intros p E. rewrite P in E. discriminate.
+      + rewrite (plan_not_val_touched m (xr_size g) x op SZ X); [reflexivity|]. intros p E. rewrite P in E. discriminate.
   Qed.
 End OneRegion.
 
 (* a region mapped in advance: no window is ever taken, every operation satisfies the checker *)
 Lemma op_ok_advance m o g c x op live : on_demand g = false -> cx_rkind c <> 3 -> cx_size c = xr_size g ->
-  xop_of x = Some op ->
+  xr_size g <= ISZ_MAX -> xop_of x = Some op ->
   snd (run_op m o g op) <> RFault /\ fst (run_op m o g op) = [] /\
   op_ok c x {| p_r := opres_code (snd (run_op m o g op)); p_data := 1; p_live := live;
                p_evs := dev_evs (fst (run_op m o g op)) |} = true.
 Proof.
-  intros D RK Cs X.
+  intros D RK Cs SZ X.
   assert (RK' : (cx_rkind c =? 3) = false) by (apply N.eqb_neq; exact RK).
   unfold run_op, op_ok. cbn [p_r p_data p_live p_evs]. rewrite RK', Cs.
   destruct (op_plan m (xr_size g) op) as [[| |goff glen wr toff tlen|toff tlen]| |] eqn:P; cbn [fst snd opres_code].
@@ -281,9 +306,9 @@ Proof.
   - unfold guarded. rewrite D. cbn [fst snd opres_code]. repeat split; discriminate.
   - rewrite D. cbn [andb fst snd opres_code]. repeat split; discriminate.
   - split; [discriminate|]. split; [reflexivity|].
-    rewrite (plan_not_val_touched m (xr_size g) x op X); [reflexivity|]. intros p E. rewrite P in E. discriminate.
+    rewrite (plan_not_val_touched m (xr_size g) x op SZ X); [reflexivity|]. intros p E. rewrite P in E. discriminate.
   - split; [discriminate|]. split; [reflexivity|].
-    rewrite (plan_not_val_touched m (xr_size g) x op X); [reflexivity|]. intros p E. rewrite P in E. discriminate.
+    rewrite (plan_not_val_touched m (xr_size g) x op SZ X); [reflexivity|]. intros p E. rewrite P in E. discriminate.
 Qed.
 
 Definition wf17x (c : case17x) : Prop :=
@@ -322,7 +347,7 @@ Proof.
          destruct (model_ops m o g [] ops') as [[rest stf] died]; cbn [fst snd] in *;
          destruct IH as [I1 [I2 I3]]; cbn [ops_ok length N.of_nat]; rewrite OK, I1; repeat split; assumption).
     + assert (D : on_demand g = false) by exact OD.
-      destruct (op_ok_advance m o g c x op (N.of_nat (length st)) D RK Cs X) as [NF [LE OK]].
+      destruct (op_ok_advance m o g c x op (N.of_nat (length st)) D RK Cs ltac:(unfold ISZ_MAX; lia) X) as [NF [LE OK]].
       destruct (run_op m o g op) as [l res] eqn:R. cbn [fst snd] in NF, LE, OK. subst l.
       cbn [live_after fold_left] in *.
       destruct res; try contradiction;
